@@ -159,7 +159,7 @@ def pdb_line(a, serial):
     x, y, z = a["xyz"]
     el = a.get("element") or nm.lstrip("0123456789")[0]
     return (f"{a['rec']:<6s}{serial:5d} {name}{a.get('alt', ' ') or ' '}{a['resname']:>3s} {a['chain'] or ' '}"
-            f"{a['resseq']:4d}{a['icode'] or ' '}   {x:8.3f}{y:8.3f}{z:8.3f}{1.0:6.2f}{0.0:6.2f}          {el:>2s}")
+            f"{a['resseq']:4d}{a['icode'] or ' '}   {x:8.3f}{y:8.3f}{z:8.3f}{a.get('occ', 1.0):6.2f}{0.0:6.2f}          {el:>2s}")
 
 
 def pdb_text(chains, ter=True, end=True):
